@@ -189,6 +189,11 @@ SHARED = [("C07", "leaf_compute_fn_y_i", ["C07.fn_y"]), ("C07", "fn_x_all", ["C0
           ("C07", "prec_all", ["C07.prec.x", "C07.prec.y", "C07.prec.z", "C07.uprod", "C07.vprod"])]
 REPLAY = [("C09.reduce", "fa_repro.py", "dask_classes", {}), ("C09.handover", "fa_repro.py", "dask_classes", {}), ("C09.ascent", "fa_repro.py", "phase_ascent", {}), ("C09", "fa_repro.py", "phases", {})]
 LEVEL = "other"
+TECHNIQUE = "contract-based deductive verification (M-steps, reduction, phase hand-over, leaf formulas) + bounded exact-rational execution of the real E-steps (objrun)"
+LEVEL_TEXT = ("M-step formulas, accumulator reduction, phase sequencing/hand-over/copy-back and all leaf formulas are proved for all shapes. The per-class "
+              "E-step orchestration of the three phases (loops over label sets with label-indexed lists) is outside the symbolic engine and is checked by running "
+              "the real code on exact rationals over a finite grid of shapes against the exact posterior moments (bounded, not counted as proved); the ascent "
+              "clause rests on the trusted EM lemma for linear-Gaussian models plus a bounded numeric check.")
 EXPLANATION = ("M-steps, accumulator reduction, phase hand-over/copy-back and all leaf formulas are proved for all shapes (obligations/discharged). "
                "The E-step orchestration (posterior per class/session, accumulators) and the ascent clause are checked by the bounded objrun engine "
                "(bounded_checks). EM ascent itself rests on the trusted lemma L-EM-LG.")
